@@ -30,6 +30,8 @@ CHECKS['C14'] = ('exploration','runtime monitoring: text operations over all ind
 CHECKS['C19'] = ('exploration','runtime monitoring: differential testing of 生成JSON / 解析JSON against Python json (independent RFC 8259 implementation), including every single-character corruption of small documents', 'Generated JSON text is parsed by Python and compared structurally; documents encoded by Python are parsed by the interpreter and compared including key order; corrupt documents must raise an exception that a 拦截 handler catches exactly when Python rejects them.', 'Trusts: Python 3 json module; overflowing literals, lone surrogates and non-object top levels are not judged.', '§6 C19')
 CHECKS['C04'] = ('exploration','runtime monitoring: exhaustive code-point sweep of the identifier alphabet against the table, bounded-exhaustive enumeration of numeric-looking strings against the documented form with math/big values, generate-and-recover token sequences and a greedy reference segmenter for the lexer', 'Alphabet membership is exhaustive over all code points; the numeric recogniser is enumerated over all strings up to length 5/7 of an 11-symbol alphabet (beyond its 12 states) plus prefix x suffix products; segmentation is explored with generated token sequences rendered with minimal separators.', 'Trusts: keyword spellings/type codes transcribed from the manual and public constants; math/big for decimal to double; the separator rules of the generator (DESIGN Appendix B).', '§6 C04')
 CHECKS['C13'] = ('exploration','runtime monitoring: round-trip oracle (encoder with free choice among rule-conformant spellings -> lexer -> same text) and a three-valued reference decoder over a bounded-exhaustive critical alphabet', 'Forward: random texts are written as literals in all five quote spellings with randomly chosen conformant escapes and must read back exactly (token level and through 输出). Reverse: all strings up to length 3/4 over 28 critical symbols are decoded by a reference decoder that declares a case unspecified when defensible readings of the rules differ.', 'Trusts: the reference decoder in c13.go (four readings of the catch-all backtick rule must agree for a case to be judged).', '§6 C13')
+CHECKS['C11'] = ('exploration','runtime monitoring: repetition monitor (same program executed N times in one process, outcomes compared) over a corpus aimed at every hash-map iteration site, with a canary that shows map-order randomisation was live', 'Each program is executed 40 (quick) / 300 (thorough) times in one process and every repetition must give the identical result, display trace and error text; the corpus has one family per range-over-map site of the interpreter (dictionary equality, JSON decode, import-all, input expressions, request headers) plus samples of the generated corpora.', 'Trusts: Go map iteration order is re-randomised per range statement (canary in evidence). Sites not reached by the corpus are not decided.', '§6 C11')
+CHECKS['C16'] = ('exploration','runtime monitoring: (a) sequential pollution monitor - probe outcomes after polluter sequences compared with outcomes in pristine processes; (b) Go race detector plus response/token matching while goroutines drive the real HTTP handlers concurrently', 'All single polluters x all probes and random polluter sequences are run in fresh processes with shared and separate Interpreter objects; concurrent executions are driven through the real handlers under the race detector with each request returning its own token.', 'Trusts: the Go race detector (reports only executed interleavings); the synthetic library registered through SetExternalLibs stands in for library types because stdlib/http does not compile on this platform.', '§6 C16')
 NOT_YET = {}
 
 def main():
